@@ -4228,3 +4228,229 @@ func c18R10(c *Ctx, r *Report) {
 	r.Check(ok && qtPos != token.NoPos, rule, fn.Name(), "a phi of a by-reference type merges addresses", c.pos(fn.Decl.Pos()),
 		"the phi asks for the QBE type of a struct: `let v := div(1) catch d;` with a struct Ok payload is refused by the native back end (\"qbe: unsupported type struct { … }\") although the same shape with `?? d` on an optional compiles")
 }
+
+// ---- C04.R9: the constant walk is sound across control flow, and decides a use where it stands -----------------
+
+func init() {
+	lateInits = append(lateInits, func() {
+		props["C04"].Quick = append(props["C04"].Quick, c04R9)
+		props["C08"].Quick = append(props["C08"].Quick, c04R9)
+		props["C09"].Quick = append(props["C09"].Quick, c04R9)
+		props["C04"].Explanation += " (R9) the constant-propagation walk of hir/analysis forgets, after every statement that may or may not run (if/else, loop body, match arm, catch handler, closure body) — and before a loop — the variables assigned inside it; it folds a decided index and a decided match pattern into the tree at the point of use; and (R1) it drops the values of variables when the function is done, so that code generation can only see literals and constants."
+	})
+}
+
+func c04R9(c *Ctx, r *Report) {
+	const rule = "C04.R9"
+	r.Describe(rule, "hir/analysis walkNodeConstEval: in the IfStmt, ForStmt, WhileStmt and MatchStmt cases the last walk of a body is followed by forgetAssigned (loops: also preceded by one); catch handlers and closure bodies go through walkConditional, which forgets after the walk; forgetAssigned sets ConstValue = nil; the assignment / ++ / -- / &' sites call markAssigned; checkArrayBounds stores a literal into the IndexExpr's Index and the MatchStmt case folds the pattern")
+	wn := c.LookupFn(pkgHIRAn, "walkNodeConstEval")
+	we := c.LookupFn(pkgHIRAn, "walkExprConstEval")
+	wa := c.LookupFn(pkgHIRAn, "walkAssignConstEval")
+	fa := c.LookupFn(pkgHIRAn, "forgetAssigned")
+	ma := c.LookupFn(pkgHIRAn, "markAssigned")
+	cab := c.LookupFn(pkgHIRAn, "checkArrayBounds")
+	if !r.Anchor(rule, wn != nil && we != nil && wa != nil && cab != nil, "hir/analysis walkNodeConstEval / walkExprConstEval / walkAssignConstEval / checkArrayBounds") {
+		return
+	}
+	if fa == nil || ma == nil {
+		r.Fail(rule, wn.Name(), "conditional statements forget what they assign", c.pos(wn.Decl.Pos()),
+			"the walk follows the statements in textual order and keeps one value per variable: after `if never() { i = 3; }` the index i is 3, inside `while i < 4 { a[i]; i = i + 1; }` it is the value of the last assignment — a fixed-array access compiles to another element than the one the program indexes, and a valid index into a dynamic array is rejected at compile time")
+		return
+	}
+	info := wn.Info()
+	isBodyWalk := func(cl *ast.CallExpr) bool {
+		f := callee(info, cl)
+		if f == nil || !(f.Name() == "walkBlockConstEval" || f.Name() == "walkNodeConstEval") || len(cl.Args) != 3 {
+			return false
+		}
+		s := exprStr(cl.Args[2])
+		return strings.HasSuffix(s, ".Body") || strings.HasSuffix(s, ".Else")
+	}
+	for _, tn := range []string{"IfStmt", "ForStmt", "WhileStmt", "MatchStmt"} {
+		var cc *ast.CaseClause
+		ast.Inspect(wn.Decl.Body, func(x ast.Node) bool {
+			if cl, ok := x.(*ast.CaseClause); ok && cc == nil {
+				for _, t := range caseTypes(info, cl) {
+					if nt := namedOf(t); nt != nil && nt.Obj().Name() == tn {
+						cc = cl
+					}
+				}
+			}
+			return true
+		})
+		if !r.Anchor(rule, cc != nil, "walkNodeConstEval: case *hir."+tn) {
+			continue
+		}
+		var firstBody, lastBody, firstForget, lastForget token.Pos
+		for _, st := range cc.Body {
+			for _, cl := range callsIn(st, false) {
+				if isBodyWalk(cl) {
+					if firstBody == token.NoPos {
+						firstBody = cl.Pos()
+					}
+					lastBody = cl.Pos()
+				}
+				if isCallTo(info, cl, fa.Obj) {
+					if firstForget == token.NoPos {
+						firstForget = cl.Pos()
+					}
+					lastForget = cl.Pos()
+				}
+			}
+		}
+		ok := lastBody != token.NoPos && lastForget > lastBody
+		if tn == "ForStmt" || tn == "WhileStmt" {
+			ok = ok && firstForget != token.NoPos && firstForget < firstBody
+		}
+		r.Check(ok, rule, wn.Name(), "case "+tn+": what the body assigns is forgotten", c.pos(cc.Pos()),
+			"the body of this statement is walked like straight-line code: a value assigned in a branch that is not taken, or in a later iteration, is believed at every use that follows in the text")
+	}
+	// forgetAssigned really forgets
+	nils := false
+	ast.Inspect(fa.Decl.Body, func(x ast.Node) bool {
+		if as, ok := x.(*ast.AssignStmt); ok && len(as.Lhs) == 1 && len(as.Rhs) == 1 {
+			if sel, ok := ast.Unparen(as.Lhs[0]).(*ast.SelectorExpr); ok && sel.Sel.Name == "ConstValue" {
+				if tv, ok := fa.Info().Types[as.Rhs[0]]; ok && tv.IsNil() {
+					nils = true
+				}
+			}
+		}
+		return true
+	})
+	r.Check(nils, rule, fa.Name(), "sets ConstValue = nil", c.pos(fa.Decl.Pos()), "forgetAssigned no longer clears the value")
+	// the mutation sites are collected
+	for _, site := range []struct {
+		fn   *Fn
+		what string
+	}{{wa, "assignment"}, {we, "++ / -- / &'"}} {
+		r.Check(nodeCalls(site.fn.Info(), site.fn.Decl.Body, ma.Obj) != nil, rule, site.fn.Name(), site.what+" marks its target as assigned", c.pos(site.fn.Decl.Pos()),
+			"a way of changing a variable is not collected: the statement that contains it does not forget the variable")
+	}
+	// catch handlers and closure bodies
+	wc := c.LookupFn(pkgHIRAn, "walkConditional")
+	wcc := c.LookupFn(pkgHIRAn, "walkCatchClauseConstEval")
+	if r.Anchor(rule, wc != nil && wcc != nil, "hir/analysis walkConditional / walkCatchClauseConstEval") {
+		r.Check(nodeCalls(wcc.Info(), wcc.Decl.Body, wc.Obj) != nil, rule, wcc.Name(), "a catch handler is walked as a conditional", c.pos(wcc.Decl.Pos()), "what an error handler assigns is believed on the path without an error")
+		r.Check(nodeCalls(we.Info(), we.Decl.Body, wc.Obj) != nil, rule, we.Name(), "a closure body is walked as a conditional", c.pos(we.Decl.Pos()), "what a closure assigns is believed whether or not it has run")
+		r.Check(nodeCalls(wc.Info(), wc.Decl.Body, fa.Obj) != nil, rule, wc.Name(), "forgets after the walk", c.pos(wc.Decl.Pos()), "walkConditional does not forget")
+	}
+	// folding at the point of use
+	folds := func(fn *Fn, field string) bool {
+		hit := false
+		ast.Inspect(fn.Decl.Body, func(x ast.Node) bool {
+			if as, ok := x.(*ast.AssignStmt); ok && len(as.Lhs) == 1 {
+				if sel, ok := ast.Unparen(as.Lhs[0]).(*ast.SelectorExpr); ok && sel.Sel.Name == field {
+					hit = true
+				}
+			}
+			return true
+		})
+		return hit
+	}
+	r.Check(folds(cab, "Index"), rule, cab.Name(), "a decided index is folded into the tree", c.pos(cab.Decl.Pos()),
+		"the index is checked with the value it has here but stays a variable in the tree: code generation evaluates it again when the walk is over — `let i := 0; io::Println(a[i]); i = 2;` reads a[2]")
+	fm := c.LookupFn(pkgHIRAn, "foldMatchPattern")
+	r.Check(fm != nil && folds(fm, "Pattern") && nodeCalls(info, wn.Decl.Body, fm.Obj) != nil, rule, wn.Name(), "a match pattern that names a variable is folded", c.pos(wn.Decl.Pos()),
+		"a pattern that names a variable is compared with the value the variable has when the walk is over: `let j := 1; match v { j => … } j = 2;` compares v with 2")
+}
+
+// ---- C11.R13 / C18.R11: 64-bit integers into f128, and the alignment the runtime may assume --------------------
+
+func init() {
+	lateInits = append(lateInits, func() {
+		props["C11"].Quick = append(props["C11"].Quick, c11R13)
+		props["C18"].Quick = append(props["C18"].Quick, c18R11)
+		props["C16"].Quick = append(props["C16"].Quick, c18R11)
+		props["C11"].Explanation += " (R13) an integer type with more than 53 value bits is not converted to a wide float through f64: largeFromSmallFunc has its own conversion for i64/u64 -> f128. The conversions into f256 (whose runtime representation is a double) are a recorded finding."
+		props["C18"].Explanation += " (R11) a C typedef of a 16-byte scalar (__float128, __int128) in the runtime's headers states the 8-byte alignment the compiler's layout gives such values."
+	})
+}
+
+func c11R13(c *Ctx, r *Report) {
+	const rule = "C11.R13"
+	r.Describe(rule, "mir/gen largeFromSmallFunc: in the clause of each wide float target, the sources i64 and u64 return a runtime function other than …_from_f64_ptr (every implicit integer -> float pair of the type checker's table with more than 53 source bits)")
+	fn := c.LookupFn(pkgMIRGen, "largeFromSmallFunc")
+	if !r.Anchor(rule, fn != nil, "mir/gen.largeFromSmallFunc") {
+		return
+	}
+	info := fn.Info()
+	// clauses of the switch on toName
+	n := 0
+	ast.Inspect(fn.Decl.Body, func(x ast.Node) bool {
+		cc, ok := x.(*ast.CaseClause)
+		if !ok {
+			return true
+		}
+		for _, e := range cc.List {
+			s := exprStr(e)
+			for _, target := range []string{"TYPE_F128", "TYPE_F256"} {
+				if !strings.Contains(s, target) {
+					continue
+				}
+				n++
+				// does the clause single out the 64-bit sources?
+				own := map[string]bool{}
+				for _, st := range cc.Body {
+					ast.Inspect(st, func(y ast.Node) bool {
+						inner, ok := y.(*ast.CaseClause)
+						if !ok {
+							return true
+						}
+						direct := false
+						for _, st2 := range inner.Body {
+							if ret, ok := st2.(*ast.ReturnStmt); ok && len(ret.Results) > 0 {
+								if v := constOf(info, ret.Results[0]); v != nil && v.Kind() == constant.String && !strings.Contains(constant.StringVal(v), "from_f64") {
+									direct = true
+								}
+							}
+						}
+						if direct {
+							for _, ie := range inner.List {
+								own[exprStr(ie)] = true
+							}
+						}
+						return true
+					})
+				}
+				ok64 := false
+				for k := range own {
+					if strings.Contains(k, "TYPE_I64") {
+						for k2 := range own {
+							if strings.Contains(k2, "TYPE_U64") {
+								ok64 = true
+							}
+						}
+					}
+				}
+				what := strings.ToLower(strings.TrimPrefix(target, "TYPE_"))
+				r.Check(ok64, rule, fn.Name(), "i64/u64 -> "+what+" does not pass through f64", c.pos(cc.Pos()),
+					"a 64-bit integer is converted to "+what+" by way of f64, which keeps 53 bits: 9007199254740993 and 9007199254740992 compare equal after the implicit conversion the type checker calls lossless")
+			}
+		}
+		return true
+	})
+	r.Floor(rule, n, 2, "wide float targets in largeFromSmallFunc")
+}
+
+func c18R11(c *Ctx, r *Report) {
+	const rule = "C18.R11"
+	r.Describe(rule, "runtime/core/*.h: every `typedef __float128 …` / `typedef [unsigned] __int128 …` carries __attribute__((aligned(8))), the alignment DataLayout.AlignOf gives 16-byte primitives (clamped to the pointer alignment)")
+	re := regexp.MustCompile(`typedef\s+(unsigned\s+)?(__float128|__int128)\b[^;]*;`)
+	n := 0
+	files, _ := filepath.Glob(filepath.Join(c.RepoDir, "runtime", "core", "*.h"))
+	for _, f := range files {
+		data, err := os.ReadFile(f)
+		if err != nil {
+			continue
+		}
+		rel, _ := filepath.Rel(c.RepoDir, f)
+		for _, m := range re.FindAllStringIndex(string(data), -1) {
+			decl := string(data[m[0]:m[1]])
+			line := 1 + strings.Count(string(data[:m[0]]), "\n")
+			n++
+			r.Check(strings.Contains(decl, "aligned(8)"), rule, rel, "16-byte scalar typedef states 8-byte alignment", fmt.Sprintf("%s:%d", rel, line),
+				"the C type promises 16-byte alignment while the compiler places such values on 8-byte boundaries (alloc8 slots, struct fields, payloads): the runtime reads and writes them with aligned 16-byte moves — `let a: i64 = …; let fa: f128 = a;` dies with SIGSEGV")
+		}
+	}
+	r.Floor(rule, n, 1, "16-byte scalar typedefs in the runtime headers")
+}
